@@ -9,7 +9,7 @@ TEXT = {
             "explicit enumeration of all programs up to a depth bound, executed on the implementation and compared with a reference model on the whole finite input space", "3 C01"),
     "C02": ("Transition monitor over all executions of a bounded-exhaustive program corpus: every firing of a registered rewrite rule of eager/normalize/lazy/sequential/unfold/optimize is intercepted and decided by comparing the reference denotation of the un-built (cls, args) pair with that of the rule's result at every point of the joint input space.",
             "exhaustive program enumeration with an invariant checked on every transition (rule firing) of every execution", "3 C02"),
-    "C03": ("Every term of the corpus x every nesting (depth <= 2/3) of {lazy, reflect, normalize, memoize()} x both reinterpreters, plus sequential and moment_matching, plus a second worker pool with FUNSOR_TYPECHECK=1 FUNSOR_USE_TCO=1: completed results must have the eager build's output domain and the reference table; memoize identity and stale-result checks over all ordered pairs of a term pool sharing one cache.",
+    "C03": ("Every term of the corpus x every nesting (depth <= 2/3) of {lazy, reflect, normalize, memoize()} x both reinterpreters, plus sequential and moment_matching, plus a second worker pool with FUNSOR_TYPECHECK=1 FUNSOR_USE_TCO=1: completed results must have the eager build's output domain and the reference table; memoize identity and stale-result checks over all ordered pairs of a term pool sharing one cache; multi-name and chained substitutions into sums / products.",
             "exhaustive enumeration of programs x configurations, differential against the eager build and a reference model", "3 C03"),
     "C04": ("Every f of a pool covering all term kinds of L x ALL substitution maps from a per-input value menu (numbers, index tensors over fresh/own/colliding names, fresh/colliding/swapped/diagonal variables, slices, expressions, ignored keys) x 5 (build, apply) interpretation modes, plus chained-vs-fused pairs, each decided on its whole input space against the literal simultaneous-substitution semantics.",
             "exhaustive enumeration of (term, substitution map, mode) triples against a reference model", "3 C04"),
@@ -23,25 +23,25 @@ TEXT = {
             "exhaustive enumeration of expressions / equations against a brute-force reference", "3 C08"),
     "C09": ("All plated factor graphs within the bounds x every eliminate set x every two-call split x semirings x plate scales, through sum_product / partial_sum_product / modified / dynamic variants / plated einsum, against brute-force unrolling; outcome must be the equal table or ValueError.",
             "exhaustive enumeration of factor graphs against a brute-force unrolled reference", "3 C09"),
-    "C10": ("All durations x state-pair sizes x batch inputs x dependence subsets x segment counts x 5 semirings through sequential / naive / mixed sum-product and MarkovProduct (eager, lazy+reinterpret, renamed), all lag sets for sarkka_bilmes_product, against the explicit left-to-right fold.",
+    "C10": ("All durations x state-pair sizes x batch inputs x dependence subsets x segment counts x 5 semirings through sequential / naive / mixed sum-product and MarkovProduct (eager, lazy+reinterpret, renamed), all lag sets for sarkka_bilmes_product, deep log-space data and real-parameter forms with two tensor leaves, against the explicit left-to-right fold.",
             "exhaustive enumeration of inputs against an explicit fold reference", "3 C10"),
     "C11": ("All sum-product expressions with 1-4/5 leaf tensors over {a:2,b:3,c:2,d:1} (flat, nested, renamed / sliced / index-substituted / concatenated / twice-used leaves, plates incl. semiring-zero cells) x reduced subsets x 2 semirings x optimizer routes: forward value and every leaf's adjoint against the brute-force indicator-derivative of the joint table.",
             "exhaustive enumeration of expressions against a brute-force derivative of the joint table", "3 C11"),
-    "C12": ("All Gaussian signatures (1-3 real inputs of shapes ()..(2,2), 0-2 batch inputs, every interleaving, ranks 0..2*dim+1) x every variant of each pointwise operation family (add, real/int/slice/index/rename/affine substitution, align, rank compression, Cat, 3x4 constructor parametrisations) composed to depth 2/3, evaluated on the unisolvent lattice against the dense quadratic form.",
+    "C12": ("All Gaussian signatures (1-3 real inputs of shapes ()..(2,2), 0-2 batch inputs, every interleaving, ranks 0..2*dim+1) x every variant of each pointwise operation family (add, real/int/slice/index/rename/affine substitution, align, rank compression, Cat, 3x4 constructor parametrisations) composed to depth 2/3, plus histories that reuse one live value across operations, evaluated on the unisolvent lattice against the dense quadratic form.",
             "exhaustive enumeration of signatures x operations against a dense reference, decided on a unisolvent point set", "3 C12"),
-    "C13": ("All full-rank Gaussian signatures x every subset of real inputs marginalised in one step / two steps / around pointwise evaluation, log-normaliser, plate sums, mixture reductions, Integrate against variables and Gaussians, moment matching of 2-6 component mixtures, and rank-deficient negative cases, against dense closed forms (Schur complement, logdet, moments).",
+    "C13": ("All full-rank Gaussian signatures x every subset of real inputs marginalised in one step / two steps / around pointwise evaluation, log-normaliser, plate sums, mixture reductions, Integrate against variables and Gaussians, moment matching of 2-6 component mixtures, rank-deficient negative cases, and histories on ONE live Gaussian (every cached-property touch followed by every operation, with and without an intervening substitution), against dense closed forms (Schur complement, logdet, moments).",
             "exhaustive enumeration of signatures x operations against closed forms", "3 C13"),
-    "C14": ("Delta grammar (points, log-densities, substituted values, integrands) enumerated exhaustively against the point-mass semantics; Tensor sampling explored as environment answers: every prescribed uniform draw placed in every CDF interval, on every boundary, at 0.0 and nextafter(1,0), 0 then 1 (quick) then 2 (thorough) deviations from the default draw, checking support, selected cell, mass identity, inputs and determinism; Gaussian sampling with prescribed noise (0, unit vectors): affine in the noise with the dense conditional mean and covariance.",
+    "C14": ("Delta grammar (points, log-densities, substituted values, integrands, substitution of every invertible transform, their compositions and chains against textbook Jacobians) enumerated exhaustively against the point-mass semantics; Tensor sampling explored as environment answers: every prescribed uniform draw placed in every CDF interval, on every boundary, at 0.0 and nextafter(1,0), 0 then 1 (quick) then 2 (thorough) deviations from the default draw, checking support, selected cell, mass identity, inputs and determinism; Gaussian sampling with prescribed noise (0, unit vectors): affine in the noise with the dense conditional mean and covariance.",
             "deviation-bounded exhaustive enumeration of environment answers (random draws) and exhaustive input enumeration against closed forms", "3 C14"),
     "C15": ("Every entry of UNITS, DISTRIBUTIVE_OPS, BINARY/SAFE_BINARY/UNARY_INVERSES, PRODUCT_TO_POWER on an exact-arithmetic operand grid restricted to the op's carrier; every op on every pair of operand forms (Python scalar, numpy scalar, 0-d, arrays up to (3,2)); limit behaviour of logaddexp/logsumexp/log-space einsum with -inf in every position; no-NaN of the safe ops.",
             "exhaustive enumeration of table entries x operand grid against exact arithmetic", "3 C15"),
-    "C16": ("Subtype axioms on all pairs/triples of a type pool drawn from every registered signature; for every registry key every synthesised argument-type tuple: the dispatched rule is a minimal matching signature; dispatch is independent of cache state, first-use order and bounded permutations of the registration order.",
+    "C16": ("Subtype axioms on all pairs/triples of a type pool drawn from every registered signature; for every registry key every synthesised argument-type tuple: the dispatched rule is a minimal matching signature; dispatch is independent of cache state, first-use order and bounded permutations of the registration order; explicit-state search over register / dispatch / cache-clear histories on fresh dispatcher objects (depth 4-6) against the reference match over the signatures registered so far; equal values with different nested element types passed to deep_type in every order.",
             "exhaustive enumeration of type tuples / registration orders against a reference most-specific-match computation", "3 C16"),
     "C17": ("Explicit-state BFS over enter/exit/raise/probe histories of 10 interpretations (with-blocks, decorators, exceptions caught k levels up, library-internal pushes) on the real global stack, compared after every event with a Python-list model; un-merged cross-check of the canonicalisation.",
             "explicit-state BFS over operation/fault histories on the real stack against a list model", "3 C17"),
     "C18": ("All lazy expressions of the compiler fragment up to depth 2/3 (including non-commutative ops and shared sub-expressions) x bindings: compiled program, printed source, pickled program and traced programs against an independent evaluator; missing/unexpected inputs must be rejected.",
             "exhaustive enumeration of programs against a reference evaluator", "3 C18"),
-    "C19": ("All arrays of rank 0-4/5 x event ranks x dim-to-name maps x dtypes round-tripped through to_funsor/to_data; every permutation of <= 4 inputs for align on 6 term kinds; align_tensor(s) on all tensor pairs; materialize on a pool of lazy integer terms; all against own index arithmetic.",
+    "C19": ("All arrays of rank 0-4/5 x event ranks x dim-to-name maps x dtypes round-tripped through to_funsor/to_data; every permutation of <= 4 inputs for align on 6 term kinds; align_tensor(s) on all tensor pairs; materialize on a pool of lazy integer terms; aligned terms as operands of enclosing unary / binary / reduce expressions; all against own index arithmetic.",
             "exhaustive enumeration of inputs against reference index arithmetic", "3 C19"),
     "C20": ("Immutability monitor over a mixed corpus run as one long-lived history per worker: fingerprints of every leaf array and held funsor re-checked after every program; second pass with read-only arrays turning in-place writes into located errors.",
             "exhaustive program enumeration with a state invariant checked after every operation of a long history", "3 C20"),
